@@ -191,10 +191,12 @@ Definition process_xtn (st : stream) (pkt : bytes) (xcs : cstate) : M unit :=
   h <- rd_dst off 4 ;;
   let profile := be16 h 0 in
   let n := be16 h 2 * 4 in
+  (* an unsupported profile is refused before any element is looked at *)
+  if negb (profile =? xtn_hdr_one_byte_profile_c) && negb (Z.land profile 65520 =? xtn_hdr_two_byte_profile_c)
+  then exit_with st_parse_err else
   d <- rd_dst (off + 4) n ;;
   let r := if profile =? xtn_hdr_one_byte_profile_c then xtn_one (S (length d)) (s_enc_xtn st) xcs d 0
-           else if Z.land profile 65520 =? xtn_hdr_two_byte_profile_c then xtn_two (S (length d)) (s_enc_xtn st) xcs d 0
-           else None in
+           else xtn_two (S (length d)) (s_enc_xtn st) xcs d 0 in
   match r with
   | Some d' => wr_dst (off + 4) d'
   | None => exit_with st_parse_err
@@ -359,7 +361,9 @@ Definition unprotect_pre : M upre :=
   xl <- (if inuse then (h <- rd_src (hdr_len pkt) 4 ;; ret ((be16 h 2 + 1) * 4)) else ret 0) ;;
   let enc_start := if inuse then u64 (u64 (enc0 - (xl - octets_in_rtp_xtn_hdr_c))
                                       - (if inplace then hdr_cc pkt * 4 else 0)) else enc0 in
-  (if u64 (len - tag_len - s_mki_size st) <? enc_start then exit_with st_parse_err else ret tt) ;;;
+  (* the unencrypted header (enc_start moved back over the CSRC list when cryptex works in place) must end before the trailer *)
+  (if u64 (len - tag_len - s_mki_size st) <? u64 (enc_start + (if inplace then hdr_cc pkt * 4 else 0))
+   then exit_with st_parse_err else ret tt) ;;;
   let enc_len := u64 (len - enc_start - s_mki_size st - tag_len) in
   (if b_cap b <? u64 (len - s_mki_size st - tag_len) then exit_with st_buffer_small else ret tt) ;;;
   (if b_alias b then ret tt else (h <- rd_src 0 enc_start ;; wr_dst 0 h)) ;;;
